@@ -82,3 +82,13 @@ CALLS += [
 # C16: the kernel's precondition n in {4, 8} is established by the wrapper's guard (the raise under it is the only statement)
 CALLS.append(dict(module="xrspatial/zonal.py", function="regions", props=("C16",), where="test", call="neighborhood not in (4, 8)",
                   why="regions() rejects any other neighbourhood before calling _area_connectivity (requires n == 4 or n == 8)"))
+
+# C15: the two implementations the generated_jit dispatcher _is_close can select, and its tolerances
+_IC = dict(module="xrspatial/experimental/polygonize.py", function="_is_close", props=("C15",))
+CALLS += [
+    dict(_IC, where="return-any", call="lambda reference, value: value == reference", why="integers are compared exactly"),
+    dict(_IC, where="return-any", call="lambda reference, value: abs(value - reference) <= atol + rtol * abs(reference)",
+         why="floats: the isclose form the contract of _is_close assumes"),
+    dict(_IC, where="assign:atol", call="1e-08", why="absolute tolerance"),
+    dict(_IC, where="assign:rtol", call="1e-05", why="relative tolerance"),
+]
